@@ -632,7 +632,13 @@ class Interp(object):
                 r = self.policy.call_opaque(self, f, args, kwargs)
                 if r is not PROCEED:
                     return r
-        raise Undecided('call of %r' % (f,))
+        if isinstance(f, Obj) and self.ctx.data(f).kind == 'inst' and self.ctx.data(f).cls is not None:
+            k, raw = self.find_class_attr(self.ctx.data(f).cls, '__call__')
+            if isinstance(raw, types.FunctionType):
+                sf = self.srcfunc_of(raw, k)
+                if sf is not None:
+                    return self.call_src(sf, [f] + list(args), dict(kwargs))
+        raise Undecided('call of %r (%s)' % (f, self.ctx.data(f).kind if isinstance(f, Obj) else type(f).__name__))
 
     def call_native(self, f, args, kwargs):
         from . import models
@@ -1291,7 +1297,24 @@ class Interp(object):
         r = self.comprehension(e, env, e.elt)
         if isinstance(r, list):
             return self.ctx.new_list(r)
+        if isinstance(r, SymIter) and r.label == 'filter-free':
+            return self.materialize_map(r)
         return r
+
+    def materialize_map(self, it):
+        """[f(x) for x in L] over a symbolic list L: a list of the same length whose elements are computed on demand."""
+        ctx = self.ctx
+        kind, seq = self.as_iterable(it.src)
+        if kind != 'sym':
+            return it
+        o = ctx.new_obj('list', name=ctx.fresh('map'))
+        d = ctx.data(o)
+        d.items = {}
+        d.symlen = seq[0]
+        d.extra['map_of'] = it.src
+        d.extra['map_fn'] = it.fn
+        d.elem_factory = lambda key, it=it, seq=seq: it.fn(seq[1](key))
+        return o
 
     def expr_GeneratorExp(self, e, env):
         r = self.comprehension(e, env, e.elt)
@@ -1302,6 +1325,21 @@ class Interp(object):
             return self.comprehension_nested(e, env, elt)
         g = e.generators[0]
         it = self.eval(g.iter, env)
+        if isinstance(it, SymIter):
+            # a comprehension over a lazy filter/map of a symbolic list: compose the element functions
+            inner = it
+
+            def fn2(v, g=g, env=env, elt=elt, inner=inner):
+                w = inner.fn(v)
+                if w is SymIter.SKIP:
+                    return SymIter.SKIP
+                cenv = Env(env, env.func)
+                self.assign_comp(g.target, w, cenv)
+                for c in g.ifs:
+                    if not self.truth(self.eval(c, cenv)):
+                        return SymIter.SKIP
+                return self.eval(elt, cenv)
+            return SymIter(inner.src, fn2, 'filtered')
         kind, seq = self.as_iterable(it)
         if kind == 'concrete':
             out = []
